@@ -107,6 +107,7 @@ func capLife(id, tier string, p map[string]bool) LifeOpts {
 func lifeFamily(id, tier string, p map[string]bool, tweak func(kind string, o *LifeOpts)) []*engine.Scenario {
 	a, b := baseLife(id, tier, p), r1Life(id, tier, p)
 	a.Regenesis, b.Regenesis = true, true
+	a.Unnamed, b.Unnamed = true, true
 	if tweak != nil {
 		tweak("r2", &a)
 		tweak("r1", &b)
@@ -145,6 +146,7 @@ func lifeFamily(id, tier string, p map[string]bool, tweak func(kind string, o *L
 	e.Durations = []uint64{3600}
 	e.RenewDur = []uint64{3600}
 	e.Drain, e.Migrate = false, false
+	e.Roots = []string{"R0", "R7"}
 	e.Depth = 5
 	if tier == "thorough" {
 		e.Depth = 7
